@@ -165,15 +165,15 @@ def functional_zoo(rng, space, kind=None, smooth=False, exact=True):
     if kind == 'zero':
         return Fn(kind, S.ZeroFunctional(space), lambda s: 'id', lambda s: 'scale:0', 'scale:0')
     if kind == 'l1':
-        return Fn(kind, S.L1Norm(space), lambda s: 'soft:' + fs(s), lambda s: 'clamp:-1:1')
+        return Fn(kind, S.L1Norm(space), lambda s: 'soft:' + fs(s), lambda s: 'ball:1')
     if kind == 'l1_t':
         return Fn(kind, S.L1Norm(space).translated(unflat(space, g)),
                   lambda s: 'shift:{}:soft:{}'.format(gl, fs(s)),
-                  lambda s: 'comp:clamp:-1:1:affine:1:{}'.format(fl(-_F(s) * _F(v) for v in g)))
+                  lambda s: 'comp:ball:1:affine:1:{}'.format(fl(-_F(s) * _F(v) for v in g)))
     if kind == 'a_l1':
         a = rng.choice([0.5, 2.0, 0.25] if exact else [0.5, 2.0, 3.0, 0.3])
         return Fn(kind, a * S.L1Norm(space), lambda s: 'soft:' + fs(_F(a) * _F(s)),
-                  lambda s: 'clamp:{}:{}'.format(fs(-a), fs(a)))
+                  lambda s: 'ball:' + fs(a))
     if kind == 'l2sq':
         return Fn(kind, S.L2NormSquared(space),
                   lambda s: 'scale:' + fs(1 / (1 + 2 * _F(s))),
@@ -294,11 +294,40 @@ def odd_bits(fr):
     return n.bit_length()
 
 
-def seq_mismatch(impl_seq, model_seq, rtol=1e-9, exact_bits=44):
+def line_exact(line, max_bits=12):
+    """True when every number on a driver line is a dyadic rational with few significant
+    bits and no map with an epsilon-fudge in ODL (`ball`: the L-infinity ball projection is
+    computed with radius lam*(1 - 1e-14)) occurs: then, for few iterations, no float
+    operation on the path rounds and the comparison can be exact."""
+    import re
+    if 'ball:' in line:
+        return False
+    for tok in line.split()[1:]:
+        if '=' not in tok:
+            continue
+        toks = re.split('[,;:]', tok.split('=', 1)[1])
+        for i, t in enumerate(toks):
+            if re.match(r'^-?\d+(/\d+)?$', t):
+                b = odd_bits(pfrac(t))
+                # ODL divides by the threshold (soft) / multiplies by 1/sigma (Moreau)
+                if b > max_bits or (i and toks[i - 1] in ('soft', 'moreau') and b > 1):
+                    return False
+    return True
+
+
+def pfrac(t):
+    if '/' in t:
+        a, b = t.split('/')
+        return Fraction(int(a), int(b))
+    return Fraction(int(t))
+
+
+def seq_mismatch(impl_seq, model_seq, rtol=1e-9, exact_bits=44, exact=True):
     """Compare two sequences of vectors (impl: numpy arrays, model: lists of Fractions).
-    Exact when every model value is a dyadic rational of at most `exact_bits` significant
-    bits (then no float operation on the path can have rounded for the harness' inputs),
-    relative tolerance `rtol * scale` otherwise.  Returns None or a description."""
+    Exact when the inputs allow it (`exact`, see `line_exact`) and every model value is a
+    dyadic rational of at most `exact_bits` significant bits (then no float operation on
+    the path can have rounded), relative tolerance `rtol * scale` otherwise.
+    Returns None or a description."""
     if len(impl_seq) != len(model_seq):
         return 'number of iterates: impl {} model {}'.format(len(impl_seq), len(model_seq))
     scale = Fraction(1)
@@ -307,7 +336,7 @@ def seq_mismatch(impl_seq, model_seq, rtol=1e-9, exact_bits=44):
         for v in mv:
             scale = max(scale, abs(v))
             bits = max(bits, odd_bits(v))
-    tol = Fraction(0) if bits <= exact_bits else Fraction(rtol) * scale
+    tol = Fraction(0) if (exact and bits <= exact_bits) else Fraction(rtol) * scale
     for k, (iv, mv) in enumerate(zip(impl_seq, model_seq)):
         iv = np.asarray(iv, dtype=float).ravel()
         if len(iv) != len(mv):
